@@ -59,7 +59,7 @@ open Tongo.PoolSM in
 def autoActions (v : Variant) (parked : List Nat) (s : State) : List Action :=
   (enabledActions v s).filter fun
     | .wRecv i => !parked.contains i
-    | .recv | .nRLock | .nSend _ | .nDrain _ | .nPut | .nDone | .wSub _ | .wUnsub _ | .sSend _ => true
+    | .recv | .nRLock | .nCheck | .nSend _ | .nDrain _ | .nPut | .nDone | .wSub _ | .wUnsub _ | .sSend _ => true
     | _ => false
 
 open Tongo.PoolSM in
@@ -107,7 +107,7 @@ def scenInit (sc : Scen) : State :=
   let pubs := sc.steps.filterMap fun st => match st with
     | ["u", c, q] => some (c.toNat?.getD 0, q.toNat?.getD 0)
     | _ => none
-  mkInit sc.heads sc.best targets pubs
+  mkInit sc.heads sc.best targets pubs sc.strategy ((List.range sc.heads.length).map (fun (i : Nat) => Int.ofNat i + 1))
 
 open Tongo.PoolSM in
 def apply? (v : Variant) (s : State) (as : List Action) : Option State := runTrace v s as
@@ -127,11 +127,10 @@ def scenStep (v : Variant) (sc : Scen) (s : State) (k : Nat) (shorts parked : Li
   | ["t", mask, rtts] =>
     let m := mask.toNat?.getD 0
     let rs := (rtts.splitOn ".").map (fun x => x.toInt?.getD 1)
-    let conns := s.heads.zipIdx.map fun (h, i) =>
-      ({ id := i, alive := (m >>> i) % 2 == 1, seqno := BitVec.ofNat 32 h, rtt := rs.getD i 1 } : Conn)
-    let prev := match s.best with | none => none | some c => conns[c]?
-    let choice := (specSelect sc.strategy conns prev).map (·.id)
-    (apply? v s ([.tick, .ubLock] ++ List.replicate s.heads.length .ubRead ++ [.ubSet choice])).map
+    let n := s.heads.length
+    let env : List Action := (List.range n).flatMap fun i =>
+      [.setAlive i ((m >>> i) % 2 == 1)] ++ (match rs[i]? with | some r => [.setRtt i r] | none => [])
+    (apply? v s (env ++ [.tick, .ubLock] ++ List.replicate (n + 1) .ubRead ++ List.replicate n .ubSel ++ [.ubSet])).map
       fun s' => (settle v parked 10000 s', parked)
   | ["r", i] =>
     let parked := parked.erase (i.toNat?.getD 0)
@@ -175,6 +174,35 @@ def runScen (v : Variant) (sc : Scen) : String :=
     | some s' => if atRest s' then "ok " ++ "|".intercalate ((obsOf s' :: acc).reverse) else "hang"
     | none => "hang"
 
+open Tongo.PoolSM in
+/-- `selectmv.run`: members `alive:seqno:rtt`, moves `m<k>:<conn>:<seqno>` = SetMasterHead(conn, seqno) just before
+the k-th MasterHead() call of the refresh. -/
+def selectMoving (v : Variant) (st : Strategy) (prev : Int) (args : List String) : String :=
+  let mem := args.filter (fun x => !x.startsWith "m")
+  let moves := (args.filter (fun x => x.startsWith "m")).map fun x => ((x.drop 1).toString.splitOn ":").map (·.toNat?.getD 0)
+  match connsOfText mem with
+  | none => "bad-op"
+  | some cs =>
+    let n := cs.length
+    let s0 : State :=
+      { mkInit (cs.map (·.seqno.toNat)) (if prev < 0 ∨ prev.toNat ≥ n then none else some prev.toNat) []
+          (moves.map fun m => (m.getD 1 0, m.getD 2 0)) st (cs.map (·.rtt)) with alive := cs.map (·.alive) }
+    -- the k-th head-reading action is preceded by the moves with index k
+    let readStep (k : Nat) (a : Action) (s : State) : Option State :=
+      -- a move is a complete SetMasterHead call: lock/compare/store, then the publication if the head was newer
+      let s := (moves.zipIdx.filter (fun (m, _) => m.getD 0 0 == k)).foldl (fun (s : State) (_, j) =>
+        match step v s (.sLock j) with
+        | some s1 => (step v s1 (.sSend j)).getD s1
+        | none => s) s
+      runTrace v s [a]
+    let pass1 := (List.range n).foldl (fun (o : Option State) k => o.bind (readStep k .ubRead)) (runTrace v s0 [.tick, .ubLock])
+    let pass1 := pass1.bind fun s => runTrace v s [.ubRead]
+    let pass2 := (List.range n).foldl (fun (o : Option State) k => o.bind fun s =>
+      if v.oneSnapshot then runTrace v s [.ubSel] else readStep (n + k) .ubSel s) pass1
+    match pass2.bind fun s => runTrace v s [.ubSet] with
+    | some s => s!"ok {(match s.best with | none => (-1 : Int) | some c => c)}"
+    | none => "hang"
+
 def scenOf : List String → Option Scen
   | st :: heads :: best :: steps =>
     match (heads.splitOn "/").mapM String.toNat?, best.toInt? with
@@ -204,6 +232,17 @@ def opsC13 : List (String × Handler) := [
     | st :: prev :: conns => match prev.toInt?, connsOfText conns with
       | some p, some cs => s!"ok {(resId (updateBest true (stratOf st) cs (prevOf cs p)) : Int) - 1}"
       | _, _ => "bad-op"
+    | _ => "bad-op"),
+  -- one refresh with heads moving between the reads (see harness: selectmv.run)
+  ("selectmv.run", fun
+    | st :: prev :: rest => match prev.toInt? with
+      | some p => selectMoving Tongo.PoolSM.fixed (stratOf st) p rest
+      | none => "bad-op"
+    | _ => "bad-op"),
+  ("selectmvorig.run", fun
+    | st :: prev :: rest => match prev.toInt? with
+      | some p => selectMoving ⟨true, true, false, true⟩ (stratOf st) p rest
+      | none => "bad-op"
     | _ => "bad-op"),
   ("wait.script", fun a => match scenOf a with
     | some sc => runScen Tongo.PoolSM.fixed sc
